@@ -740,7 +740,7 @@ class World:
     # ------------------------------------------------------------ Decimal model
     def fresh_dec(self, ex, name, fixed_names=False):
         mk = (lambda n, s: z3.Const("%s_%s" % (name, n), s)) if fixed_names else (lambda n, s: ex.fresh("%s_%s" % (name, n), s))
-        d = VDec(mk("special", I), mk("sign", B), mk("nd", I), mk("exp", I), mk("val", z3.RealSort()))
+        d = VDec(mk("special", I), mk("sign", B), mk("nd", I), mk("exp", I), mk("val", z3.RealSort()), p10=mk("p10", B))
         ex.assume(z3.And(d.special >= 0, d.special <= 3))
         ex.assume(z3.Implies(d.special == 0, d.nd >= 1))
         ex.assume(z3.Implies(d.special == 1, d.nd == 1))
@@ -770,11 +770,19 @@ class World:
         ex.assume(r.sign == v.sign)
         ex.assume(r.exp == -n)
         # quantize to a finer or equal exponent is exact and pads the coefficient
-        ex.assume(z3.Implies(v.exp >= -n, z3.And(r.val == v.val,
+        ex.assume(z3.Implies(v.exp >= -n, z3.And(r.val == v.val, r.p10 == v.p10,
                                                  z3.If(v.val == 0, r.nd == 1, r.nd == v.nd + (v.exp + n)))))
-        # coarser exponent: digits are dropped; a carry may add one digit (999.5 -> 1000)
+        # coarser exponent: `dropped` digits are cut off, `keep` remain; rounding may carry into one
+        # more digit (999.5 -> 1000) and then the coefficient is a power of ten; a power-of-ten
+        # coefficient is cut exactly (1000 -> 100)
         dropped = -n - v.exp
-        ex.assume(z3.Implies(v.exp < -n, z3.And(r.nd >= 1, r.nd <= z3.If(v.nd - dropped >= 0, v.nd - dropped, 0) + 1)))
+        keep = v.nd - dropped
+        ex.assume(z3.Implies(v.exp < -n, z3.And(
+            r.nd >= 1,
+            r.nd <= z3.If(keep >= 0, keep, 0) + 1,
+            z3.Implies(z3.And(keep >= 1, r.nd == keep + 1), r.p10),
+            z3.Implies(z3.And(keep >= 1, r.nd < keep), z3.BoolVal(False)),
+            z3.Implies(z3.And(v.p10, keep >= 1), z3.And(r.nd == keep, r.p10, r.val == v.val)))))
         return r
 
     def dec_binop(self, ex, op, a, b, node):
